@@ -44,7 +44,7 @@ theorem keyStep_mono {mc : Merge.Cfg} {X X' : Option Bytes} {e : KV}
     · -- absent (or empty): the entry is stored
       have hnil : X.getD [] = [] := List.length_eq_zero_iff.mp hl
       rw [hnil, merge_absent] at hm
-      have hns : ¬ (Header.isDeleted (maskedFlags e) = true ∧ e.ts < mc.cutoff) := by
+      have hns : ¬ (entryDeleted mc e = true ∧ e.ts < mc.cutoff) := by
         rw [hc]; intro hh; exact absurd hh.2 (Nat.not_lt_zero _)
       rw [if_neg hns] at hm
       injection hm with hm
